@@ -388,6 +388,7 @@ fn check_trace(trace: &[Event], g: &Graph, by_value_deps: &BTreeMap<String, Vec<
     let mut first_worklist = 0usize;
     let mut pos = 0usize;
     let mut build_ended = false;
+    let mut generated = 0usize;
     for e in trace {
         pos += 1;
         match e {
@@ -416,12 +417,18 @@ fn check_trace(trace: &[Event], g: &Graph, by_value_deps: &BTreeMap<String, Vec<
                     resolved_at.insert(p, (pos, *size, *alignment));
                 }
             }
+            // a generated vftable struct enters the registry during an attempt that may itself be
+            // deferred: it can unblock another type, so it is progress as well
+            Event::RegistryAdd { .. } if iterations > 0 => {
+                resolved_in_iter += 1;
+                generated += 1;
+            }
             Event::BuildEnd { ok } => build_ended = *ok,
             _ => {}
         }
     }
-    // items + 1 iterations at most (generated vftable structs are registered resolved)
-    let bound = first_worklist + 1;
+    // every iteration but the last resolves an item or generates a vftable struct
+    let bound = first_worklist + generated + 1;
     if iterations > bound {
         bad.push(("C10/trace/too-many-iterations".into(), format!("{iterations} iterations for {first_worklist} unresolved items")));
     }
